@@ -111,6 +111,21 @@ def alphabet(fa):
         plain = dict(kind="algorithm", target=tname, func=func, sig=sig)
         if not any(all(r.get(k) == v for k, v in plain.items()) and not r.get("parameters") and not r.get("debug") and not r.get("same_ctx_key") for r in reqs):
             reqs.append(plain)
+    # printer parameters are part of a request too (Expr.tostring(target, **printer_parameters)): the same request with the
+    # non-default value, in the same variant group as the plain one
+    for tname, func, sig, pkw in [
+            ("numpy", "square", [":float32"], dict(force_cast_arguments=False)),
+            ("numpy", "hypot", [":float32", ":float32"], dict(force_cast_arguments=False)),
+            ("python", "square", [":float"], dict(force_cast_arguments=True)),
+            ("cpp", "square", [":float"], dict(force_cast_arguments=True))]:
+        reqs.append(dict(kind="algorithm", target=tname, func=func, sig=sig, parameters={}, printer_kw=pkw))
+        plain = dict(kind="algorithm", target=tname, func=func, sig=sig)
+        if not any(all(r.get(k) == v for k, v in plain.items()) and not r.get("parameters") and not r.get("printer_kw") and not r.get("debug") and not r.get("same_ctx_key") for r in reqs):
+            reqs.append(plain)
+    # the implementation providers (Context(paths=[...])) are part of a request: two providers with the SAME __name__ but
+    # different definitions of one operation (two revisions of a user module), each asked in a fresh context
+    for rev in ("A", "B"):
+        reqs.append(dict(kind="provider", target="python", func="square_user", sig=[":float"], provider=rev, parameters={}))
     return reqs
 
 
@@ -174,12 +189,12 @@ def run(tier, seed):
     # requests that differ ONLY in their context parameters: every sequence of length <= 2 over each such pair
     # (a parameter value that sticks in process-global state shows when the pair is the whole history)
     def base(a):
-        return json.dumps({k: v for k, v in a.items() if k not in ("parameters", "alldefs")}, sort_keys=True)
+        return json.dumps({k: v for k, v in a.items() if k not in ("parameters", "alldefs", "printer_kw", "provider")}, sort_keys=True)
     groups = {}
     for i, a in enumerate(alpha):
-        if not a.get("debug") and not a.get("same_ctx_key") and a["kind"] == "algorithm":
+        if not a.get("debug") and not a.get("same_ctx_key") and a["kind"] in ("algorithm", "provider"):
             groups.setdefault(base(a), []).append(i)
-    param_pairs = [g for g in groups.values() if len(g) >= 2 and any(alpha[i].get("parameters") for i in g)]
+    param_pairs = [g for g in groups.values() if len(g) >= 2 and any(alpha[i].get("parameters") or alpha[i].get("printer_kw") or alpha[i].get("provider") for i in g)]
     pairs_h = []
     for g in param_pairs:
         pairs_h += tlc_histories("HIST_Pipeline.cfg", g, 2, chk)
